@@ -91,7 +91,8 @@ func (d *engDriver) ReceiveProbe(timeout time.Duration) (*common.ProbeResponse, 
 			d.queue = d.queue[1:]
 			st := d.sent[r.TTL]
 			rtt := time.Since(st)
-			d.w.LogEvent("Got", "ttl", r.TTL, "dest", r.Dest, "ip", r.IP, "err", r.Err, "rtt_us", rtt.Microseconds())
+			d.w.LogEvent("Got", "ttl", r.TTL, "dest", r.Dest, "ip", r.IP, "err", r.Err, "rtt_us", rtt.Microseconds(),
+				"addr", netip.AddrFrom4([4]byte{10, 0, byte(r.IP >> 8), byte(r.IP)}).String())
 			d.mu.Unlock()
 			switch r.Err {
 			case "bad":
